@@ -1489,8 +1489,11 @@ impl PeerConnection {
 
         // Update next_mid to avoid collisions with remote MIDs
         for section in &desc.media_sections {
-            if let Ok(mid_val) = section.mid.parse::<u16>() {
-                self.inner.next_mid.fetch_max(mid_val + 1, Ordering::SeqCst);
+            if let Ok(mid_val) = section.mid.parse::<u16>()
+                && let Some(next) = mid_val.checked_add(1)
+            {
+                // a=mid:65535 leaves no numeric successor; keep the counter where it is
+                self.inner.next_mid.fetch_max(next, Ordering::SeqCst);
             }
         }
 
